@@ -361,27 +361,37 @@ func VerifLemma_C16D_CheckOptions() {
 	if verifNondetBool() {
 		fileVersion = bufconfig.FileVersionV1Beta1
 	}
-	var cc bufconfig.CheckConfig
+	// The lint and the breaking section get the same shape but each with rule ids of its own type (the real
+	// check client - used natively - rejects a lint id in a breaking config and vice versa).
+	var cc, ccBreaking bufconfig.CheckConfig
 	off := verifNondetBool()
 	if off {
 		cc = bufconfig.NewDisabledCheckConfig(fileVersion)
+		ccBreaking = bufconfig.NewDisabledCheckConfig(fileVersion)
 	} else {
-		var use []string
+		var use, useBreaking []string
 		if verifNondetBool() {
 			use = []string{"ENUM_PASCAL_CASE"}
+			useBreaking = []string{"FILE_NO_DELETE"}
 		}
 		var ignore []string
 		ignoreOnly := map[string][]string{}
+		ignoreOnlyBreaking := map[string][]string{}
 		if verifNondetBool() {
 			ignore = []string{vComp(n)}
-			ignoreOnly["FIELD_LOWER_SNAKE_CASE"] = []string{vComp(n) + "/" + vComp(n)}
+			p := vComp(n) + "/" + vComp(n)
+			ignoreOnly["FIELD_LOWER_SNAKE_CASE"] = []string{p}
+			ignoreOnlyBreaking["FILE_NO_DELETE"] = []string{p}
 		}
+		disableBuiltin := verifNondetBool()
 		var err error
-		cc, err = bufconfig.NewEnabledCheckConfig(fileVersion, use, nil, ignore, ignoreOnly, verifNondetBool())
+		cc, err = bufconfig.NewEnabledCheckConfig(fileVersion, use, nil, ignore, ignoreOnly, disableBuiltin)
+		verifAssume(err == nil)
+		ccBreaking, err = bufconfig.NewEnabledCheckConfig(fileVersion, useBreaking, nil, ignore, ignoreOnlyBreaking, disableBuiltin)
 		verifAssume(err == nil)
 	}
 	lc := bufconfig.NewLintConfig(cc, verifNondetString(1), verifNondetBool(), verifNondetBool(), verifNondetBool(), verifNondetString(1), verifNondetBool())
-	bc := bufconfig.NewBreakingConfig(cc, verifNondetBool())
+	bc := bufconfig.NewBreakingConfig(ccBreaking, verifNondetBool())
 	lc2, err := equivalentLintConfigInV2(ctx, slog.Default(), lc)
 	verifAssert(err == nil, "lint config is migrated")
 	bc2, err := equivalentBreakingConfigInV2(ctx, slog.Default(), bc)
